@@ -380,7 +380,7 @@ def _text(vc, name):
     return s if isinstance(s, str) else SText(s.term)
 
 
-@harness('M4i', targets='kopf._core.engines.admission._inject_handler_id', props=['C18'],
+@harness('M4i', targets='kopf._core.engines.admission._inject_handler_id', props=['C18'], heavy=True,
          clauses=['url.id_roundtrips', 'url.config_not_mutated', 'url.rest_preserved', 'url.distinct_ids_distinct_endpoints',
                   'url.no_double_slash'],
          canaries=['canary.url_always_set', 'canary.same_endpoint'],
